@@ -121,6 +121,15 @@ def run(ctx):
         "dtDt": [("dtDt", tv.gen_dt_abs(rng)) for _ in range(2 * n)],
         "htDt": [("htDt", tv.gen_ht_abs(rng)) for _ in range(2 * n)],
     }
+    # values on a coarser grid (whole microseconds / milliseconds / seconds: zero femtosecond and yoctosecond fields) and their
+    # neighbours less than half a tick away: where a special case for "round" values would meet the general rounding rule
+    for _ in range(40 if ctx.quick else 600):
+        unit = rng.choice([10**18, 10**18, 10**21, 10**24])
+        kq = rng.choice([1, 3, 7, 99, rng.randint(1, 10**6), rng.randint(1, 10**12)])
+        for d in (0, -1, -5, -27000, 1, 27000):
+            srcs["htDt"].append(("htDt", tv.EPOCH_YS + rng.choice([1, -1]) * kq * unit + d))
+            srcs["htTd"].append(("htTd", rng.choice([1, -1]) * kq * unit + d))
+    srcs["htDt"] = [x for x in srcs["htDt"] if 0 <= x[1] < tv.HT_ABS_MAX]
     MODEL_FN = {("btTd", "dtTd"): "conv dtOfBt", ("btTd", "htTd"): "conv htOfBt", ("dtTd", "btTd"): "conv btOfDt",
                 ("htTd", "btTd"): "conv btOfHt", ("htTd", "dtTd"): "conv dtOfHt", ("dtTd", "htTd"): "conv htOfDt",
                 ("btDt", "dtDt"): "convabs dtOfBtDt", ("btDt", "htDt"): "convabs htOfBtDt",
